@@ -175,8 +175,10 @@ class ndpoly(numpy.ndarray):  # pylint: disable=invalid-name
         if exponents.size and (
             numpy.min(exponents) < 0
             or numpy.max(exponents) >= 2**32 - cls.KEY_OFFSET
+            or not numpy.all(numpy.mod(exponents, 1) == 0)
         ):
-            # would wrap around in the unsigned storage keys below
+            # would wrap around (or be truncated to another monomial) in the
+            # unsigned storage keys below
             raise ValueError(f"exponents out of range: {exponents}")
         exponents = numpy.array(exponents, dtype=numpy.uint32)
         if numpy.prod(exponents.shape):
